@@ -27,11 +27,16 @@ Vec(n, e(_)) == [q \in 1..n |-> e(q)]
 
 Ops == {"jacobian", "grad", "elementwise_grad", "hessian", "hessian_vector_product", "hessian_tensor_product", "tensor_jacobian_product",
         "vector_jacobian_product", "make_ggnvp", "deriv", "make_jvp", "make_jvp_reversemode", "value_and_grad", "grad_and_aux",
-        "make_vjp", "holomorphic_grad", "grad_named", "multigrad_dict", "make_hvp", "jacobian_of_jacobian"}
+        "make_vjp", "holomorphic_grad", "grad_named", "multigrad_dict", "make_hvp", "jacobian_of_jacobian",
+        "grad_tuple", "grad_list", "value_and_grad_tuple", "make_vjp_tuple"}
+\* container-valued argnum: the function gets a second differentiated argument y of shape (2,) that enters as  + <C, y>  with
+\* C = (3, -2); the operator returns a tuple (grad wrt x, grad wrt y); expected flat = J(1, .) ++ C
+CVec == <<3, -2>>
 
 \* which operators are defined for which (in shape, out shape)
 Applicable(op, ins, outs) ==
-  CASE op \in {"grad", "hessian", "hessian_vector_product", "hessian_tensor_product", "value_and_grad", "grad_and_aux", "grad_named", "multigrad_dict",
+  CASE op \in {"grad_tuple", "grad_list", "value_and_grad_tuple", "make_vjp_tuple"} -> outs = <<>>
+    [] op \in {"grad", "hessian", "hessian_vector_product", "hessian_tensor_product", "value_and_grad", "grad_and_aux", "grad_named", "multigrad_dict",
                "make_hvp", "holomorphic_grad"} -> outs = <<>>
     [] op = "deriv" -> ins = <<>>
     [] op = "make_ggnvp" -> Len(outs) = 1          \* the default g reduces over the last axis only
@@ -44,6 +49,8 @@ Expected(op, ins, outs, scale) ==
   LET n == Size(ins)  m == Size(outs)
       J(k, i) == Jac(k, i, n, scale)
   IN CASE op \in {"jacobian"} -> [shape |-> outs \o ins, flat |-> Mat(m, n, J)]
+       [] op \in {"grad_tuple", "grad_list", "value_and_grad_tuple", "make_vjp_tuple"} ->
+            [shape |-> <<n + 2>>, flat |-> Vec(n, LAMBDA i : J(1, i)) \o CVec]
        [] op \in {"grad", "value_and_grad", "grad_and_aux", "grad_named", "multigrad_dict", "holomorphic_grad"} ->
             [shape |-> ins, flat |-> Vec(n, LAMBDA i : J(1, i))]
        [] op = "elementwise_grad" -> [shape |-> ins, flat |-> Vec(n, LAMBDA i : SumTo(m, LAMBDA k : J(k, i)))]
